@@ -2,7 +2,8 @@
 # try_seed.sh <seed-name> <PROP> [vt args...] : apply a seeded change to /repo, run the check, undo.
 n=$1; shift; prop=$1; shift
 cd /repo && git diff --quiet || { echo "/repo dirty"; exit 9; }
-git -C /repo apply /verif/seeded/$n/patch.diff || exit 8
+pf=/verif/seeded/$n/patch.diff; [ -f /verif/seeded/$n/patch_rebased.diff ] && pf=/verif/seeded/$n/patch_rebased.diff
+git -C /repo apply $pf || exit 8
 cd /verif && ./vt check $prop "$@" ; rc=$?
 git -C /repo checkout -- .
 echo "try_seed $n $prop rc=$rc"
